@@ -7,7 +7,7 @@ ROOT = os.path.dirname(os.path.dirname(os.path.abspath(__file__)))
 req = {}
 for f in sorted(glob.glob(os.path.join(ROOT, "lean/Lattigo/Props/C*.lean"))):
     pid = os.path.basename(f)[:3]
-    names = re.findall(r"^\s*(?:protected\s+)?theorem\s+([^\s:({\[]+)", open(f, encoding="utf-8").read(), re.M)
+    names = re.findall(r"^\s*(?:protected\s+)?theorem\s+([A-Za-z_][^\s:({\[]*)", open(f, encoding="utf-8").read(), re.M)
     req.setdefault(pid, set()).update(n.split(".")[-1] for n in names)
 k = os.path.join(ROOT, "lean/Lattigo/Proofs/Kernels.lean")
 if os.path.exists(k):
